@@ -331,6 +331,22 @@ fn check_from(ctx: &mut Ctx, t: IT, v: &Big) {
         }
         None => ctx.fail(format!("<TwoFloat as NumCast>::from(n: {tn}) returned None")),
     }
+    // NumCast::from is generic over ANY `T: ToPrimitive`: a user-defined source that implements only the
+    // two required methods (its provided to_i128 / to_u128 go through to_i64 / to_u64) must convert exactly too
+    if t == IT::U64 || t == IT::I64 {
+        struct Ticks(i128);
+        impl ToPrimitive for Ticks {
+            fn to_i64(&self) -> Option<i64> {
+                i64::try_from(self.0).ok()
+            }
+            fn to_u64(&self) -> Option<u64> {
+                u64::try_from(self.0).ok()
+            }
+        }
+        let n = v.to_i128().unwrap();
+        let via = guard(|| <TwoFloat as num_traits::NumCast>::from(Ticks(n))).ok().flatten().map(Dd::of);
+        check!(ctx, via.map(|d| d.valid() && d.big() == r.big()) == Some(true), "<TwoFloat as NumCast>::from(user-defined ToPrimitive source holding {n}) = {:?} but TwoFloat::from(n) = {}", via.map(|d| d.show()), r.show());
+    }
     // the pointer-sized routes follow the 64-bit ones on this host
     if t == IT::U64 {
         let n = v.to_u128().unwrap() as u64;
@@ -540,6 +556,15 @@ fn c09_floats(ctx: &mut Ctx) {
                 2 => next_up(base + half),
                 3 => next_down(base + half),
                 _ => base + half * 0.5,
+            };
+            // one case in eight: dense around the f32 overflow boundary (f32::MAX, the midpoint
+            // f32::MAX + 2^103 above which the rounding overflows, 2^128) in f64 steps
+            let hi = if ctx.chance(1, 8) {
+                ctx.label("hi:f32-overflow-boundary");
+                let u = ctx.bits(53) as f64 / 9007199254740992.0;
+                f32::MAX as f64 + (u - 0.5) * oracle::big::pow2_f64(105)
+            } else {
+                hi
             };
             let hi = if ctx.flag() { -hi } else { hi };
             dd_at(ctx, hi)
